@@ -25,6 +25,7 @@ class ValueAdapter(Adapter):
 
     def assign(self, old_value, old_node, new_value):
         # generic fallback
+        from .._snapshot.undecided_value import contains_unmanaged
 
         # because IsStr() != IsStr()
         if isinstance(old_value, Unmanaged):
@@ -53,6 +54,8 @@ class ValueAdapter(Adapter):
         elif (
             old_node is not None
             and update_allowed(old_value)
+            # the parts which are controlled by the user are not changed
+            and not contains_unmanaged(old_value, old_node, with_node=True)
             and self.context.file._token_of_node(old_node) != new_token
         ):
             flag = "update"
